@@ -915,7 +915,7 @@ pub fn c08_checks() -> Vec<Box<dyn DynCheck>> {
 
 // ------------------------------------------------------------------------------ C10
 
-pub const C10_RULE: &str = "seed positions: the six standard perft positions, special-move-rich hand-made seeds and generated set-ups (castle/ep/promotion themes, placements <= 12 men) x depth 0..3 (4 for the initial position and sparse seeds) x rayon pools of 1..16 threads (all sixteen sizes at depth 1 on the standard positions) x generator state (new; the same call twice on one generator; reused across other seeds; reused across increasing depths exactly as run_count_positions does): MoveGenerator::count_positions(d) must equal the cumulative reference perft sum_{k=1..d+1} perft(k). The built `chess count-positions --depth d` binary is run and its 'depth: k, positions: n' lines compared with the same sums. Non-trivial = depth >= 2 and the reference tree contains en passant, castling or promotion, or the generator was reused; distinct = hash of (seed, depth, pool, state).";
+pub const C10_RULE: &str = "seed positions: the six standard perft positions, special-move-rich hand-made seeds and generated set-ups (castle/ep/promotion themes, placements <= 12 men) x depth 0..3 (4 for the initial position and sparse seeds) x rayon pools of 1..16 threads (all sixteen sizes at depth 1 on the standard positions) x generator state (new; the same call twice on one generator; reused across other seeds; reused across increasing depths exactly as run_count_positions does; asked for attack maps and check verdicts of the very position first): MoveGenerator::count_positions(d) must equal the cumulative reference perft sum_{k=1..d+1} perft(k). The built `chess count-positions --depth d` binary is run and its 'depth: k, positions: n' lines compared with the same sums. Non-trivial = depth >= 2 and the reference tree contains en passant, castling or promotion, or the generator was reused; distinct = hash of (seed, depth, pool, state).";
 
 pub fn cumulative_perft(pos: &Pos, depth: u8) -> (u64, bool) {
     // returns sum_{k=1..depth+1} perft(k) and whether a special move occurs in the tree
@@ -958,7 +958,8 @@ pub struct CountCase {
     pub fen: String,
     pub depth: u8,
     pub pool: u8,
-    /// 0 new, 1 same call twice, 2 after other seeds, 3 increasing depths
+    /// 0 new, 1 same call twice, 2 after other seeds, 3 increasing depths,
+    /// 4 after attack-map / in-check queries about this very position
     pub state: u8,
 }
 
@@ -971,7 +972,14 @@ fn count_once(c: &CountCase, st: &mut Stats) -> TestResult {
     let side = to_color(pos.side);
     let mut g = MoveGenerator::new();
     let mut calls: Vec<u8> = Vec::new();
-    match c.state % 4 {
+    match c.state % 5 {
+        4 => {
+            let b = to_board(&pos);
+            g.get_attack_targets(&b, side);
+            g.get_attack_targets(&b, to_color(pos.side.other()));
+            chess::evaluate::player_is_in_check(&b, &mut g, side);
+            calls.push(c.depth);
+        }
         0 => calls.push(c.depth),
         1 => {
             calls.push(c.depth);
@@ -1013,15 +1021,15 @@ fn count_once(c: &CountCase, st: &mut Stats) -> TestResult {
                     want,
                     d + 1,
                     threads,
-                    c.state % 4
+                    c.state % 5
                 ),
                 &pos,
             ));
         }
         let _ = before;
     }
-    if (c.depth >= 2 && special_any) || c.state % 4 != 0 {
-        st.nontrivial(fp_of(c), || json!({"fen": pos.fen(), "depth": c.depth, "threads": threads, "generator_state": c.state % 4}));
+    if (c.depth >= 2 && special_any) || c.state % 5 != 0 {
+        st.nontrivial(fp_of(c), || json!({"fen": pos.fen(), "depth": c.depth, "threads": threads, "generator_state": c.state % 5}));
     }
     Ok(())
 }
@@ -1046,7 +1054,7 @@ impl Prop for C10Generated {
             ],
             0u8..=2,
             0u8..16,
-            0u8..4,
+            0u8..5,
         )
             .prop_map(|(fen, depth, pool, state)| CountCase { fen, depth, pool, state })
             .boxed()
@@ -1092,6 +1100,17 @@ fn run_c10_standard(env: &Env, agg: &mut Stats) -> Option<Violation> {
             pool: 1,
             state: 0,
         });
+    }
+    // castling positions counted after attack-map / in-check queries about the position itself
+    for fen in [gen::EXTRA_SEEDS[0], gen::EXTRA_SEEDS[1], STANDARD[1].1, STANDARD[3].1] {
+        for depth in [0u8, 1] {
+            cases.push(CountCase {
+                fen: fen.to_string(),
+                depth,
+                pool: 2,
+                state: 4,
+            });
+        }
     }
     // every pool size 1..=16 at depth 1 (cheap) on the standard positions
     for (i, s) in STANDARD.iter().enumerate() {
